@@ -234,6 +234,8 @@ def c20e(prog, R):
         ok, why = success_ordered(f, fr[0], c.bb)
         r.check(ok, "%s|from_recovery=>%s" % (f.path, short(c.sres)), "recovery deletes files before the version is recovered: " + why,
                 f.where(c.bb), why)
+    # every successful recovery scans the directories for unnamed files
+    scan_dirs(prog, r)
     # cleanup predicate: starts_with('v') && name != current, directories skipped
     g = prog.need("tree::Tree::cleanup_orphaned_version")
     h = prog.hir.get(g.path)
@@ -243,7 +245,55 @@ def c20e(prog, R):
     r.check(has_dir_skip, "%s|directories skipped" % g.path, "orphan cleanup no longer skips directories", g.where(), str(conds))
     r.check(has_pred, "%s|predicate starts_with('v') && != current" % g.path,
             "orphan cleanup predicate changed: it may delete the current version file or keep stale ones", g.where(), str(conds))
-    r.floor(5)
+    r.floor(8)
+
+
+READ_DIR = "std::fs::read_dir"
+
+
+def scan_dirs(prog, r):
+    """recover_levels / recover_blob_files / cleanup_orphaned_version list their directory on every success path;
+    the only tolerated scan-free success return is the one guarded solely by `folder.try_exists()` (a standard
+    tree has no blobs/ directory)."""
+    from rules.engine import origin_callees, control_deps_transitive
+    for name in ("tree::Tree::recover_levels", "vlog::recover_blob_files", "tree::Tree::cleanup_orphaned_version"):
+        f = prog.need(name)
+        rd = {c.bb for c in f.calls_to(READ_DIR)}
+        key = "%s|directory scan on every success path" % name
+        if not rd:
+            r.bad(key, "recovery no longer lists the directory (orphans cannot be found)", f.where())
+            continue
+        cb, ce = success_cuts(f)
+        reach = f.reach([0], cut_blocks=set(cb) | rd, cut_edges=ce)
+        free = [b for b in f.return_blocks() if b in reach]
+        if not free:
+            r.ok(key, "every success return passes read_dir")
+            continue
+        # tolerated: guarded only by try_exists
+        bad = None
+        for b in free:
+            w = witness_path(f, [0], [b], cut_blocks=set(cb) | rd, cut_edges=ce) or []
+            conds = set()
+            for x in w:
+                t = f.blocks[x]["term"]
+                if t["k"] == "switch":
+                    names = origin_callees(f, t["discr"])
+                    names = {n for n in names if not n.endswith("::branch")}
+                    if not names:
+                        # a switch on a plain discriminant of a `?` is control flow of the error path
+                        os_ = origins(f, t["discr"])
+                        if any(o.kind == "discr" for o in os_):
+                            continue
+                        conds.add("<non-call condition>")
+                    conds |= names
+            if conds - {"std::path::Path::try_exists"}:
+                bad = (b, sorted(conds))
+                break
+        if bad:
+            r.bad(key, "a success return of recovery skips the directory scan under a condition other than "
+                       "`directory does not exist`: %s (leftover files would never be reclaimed)" % bad[1], f.where(bad[0]))
+        else:
+            r.ok(key + "|scan-free return only when the directory is missing", "guarded solely by Path::try_exists")
 
 
 def c20f(prog, R):
@@ -258,8 +308,17 @@ def c20f(prog, R):
         p = "abstract_tree::AbstractTree::" + m
         if p in prog.fns:
             roots.append(p)
-    if len(roots) < 12:
-        r.anchor_missing("read API roots (found %d)" % len(roots))
+    # what the returned iterators and guards do when the caller drives them
+    n_api = len(roots)
+    for ti in ("std::iter::Iterator::next", "std::iter::DoubleEndedIterator::next_back", "iter_guard::IterGuard::key",
+               "iter_guard::IterGuard::into_inner", "iter_guard::IterGuard::size", "iter_guard::IterGuard::into_inner_if"):
+        for p in prog.impl_of_trait_item.get(ti, []):
+            if p.startswith("<compaction::") or p.startswith("<vlog::blob_file::merge::") or p.startswith("<run_scanner::"):
+                continue   # driven by compaction / blob GC, never handed to a reader
+            if p in prog.fns:
+                roots.append(p)
+    if n_api < 12 or len(roots) < 40:
+        r.anchor_missing("read API roots (found %d api, %d total)" % (n_api, len(roots)))
     bad_prims = [A.UPGRADE, A.UPGRADE_SEQNO, A.REPLACE_LATEST, A.MAINTENANCE, A.TABLE_MARK_DELETED, A.BLOB_MARK_DELETED,
                  A.REMOVE_FILE, A.FILE_CREATE, A.FILE_CREATE_NEW, A.APPEND_VERSION, A.PERSIST_VERSION]
     reach, parent = prog.reachable_fns(roots)
